@@ -48,6 +48,9 @@ def gen_problems(tier):
         probs.append((OBJECTIVES[(i*3 + 1) % len(OBJECTIVES)], [c, a, 7, b]))     # equality on a non-first variable, m != p
     out = []
     for (o, cs) in probs:
+        # an LP without any inequality (affine objective, equality constraints only) is refused by op.solve by design
+        # ('lp must have at least one inequality'; on this path _inmatrixform raises IndexError first): outside the property
+        if all(CONSTRAINTS[ci][0] == '==' for ci in cs) and 'max' not in o and 'abs' not in o: continue
         for fmt in ('dense', 'sparse'):
             out.append({'obj': o, 'cons': cs, 'format': fmt})
     return out
@@ -339,7 +342,8 @@ def replay(prob, label, model):
             if mv is None or len(mv) != len(cobj): out.append('multiplier of constraint %d has wrong length' % ci)
             elif CONSTRAINTS[ci][0] != '==' and min(mv) < -1e-9: out.append('negative multiplier for inequality %d' % ci)
         return {'violated': out}
-    t = p._inmatrixform(prob['format'])
+    try: t = p._inmatrixform(prob['format'])
+    except Exception as e: return {'violated': ['_inmatrixform raises %s: %s' % (type(e).__name__, str(e)[:60])]}
     lp1, vmap, mmap = t
     xlp, c, G, h, A, b, d = lp_data(Wd, lp1, prob['format'])
     n_lp = len(xlp)
